@@ -20,6 +20,8 @@
 (*          (<<>> when the driver did not look)                            *)
 (*   api, wel, wsp  (observe) which writer was read (elements / to_cti /   *)
 (*          to_omkm_yaml) and the elements and species names it states     *)
+(*   refs   <<species, pid>> which live phase object EVERY species object   *)
+(*          refers to after the call ("none" / "other")                     *)
 (*   elem_of (begin) <<species, its elements>>                             *)
 (*   raised TRUE when the library raised                                   *)
 (* `st` is the `names` of the previous line of the same trace id, so the   *)
@@ -27,12 +29,13 @@
 (* Clauses (names of the failing ones are accumulated in TLC register 1):  *)
 (*   Frame  Effect  NewIsWhatWasGiven  OwnerAfterInsert  CopySnapshot      *)
 (*   CopyDetached  LiveSet  Raises  PhaseElementsAreUnionOfSpecies         *)
-(*   WrittenSpeciesAreMembers                                              *)
+(*   WrittenSpeciesAreMembers  RemovalKeepsForeignReference (remove / pop  *)
+(*   / clear on p leaves alone every species that refers to another phase) *)
 (***************************************************************************)
 EXTENDS Integers, Sequences, FiniteSets, TLC, TLCExt, Json, IOUtils
 
 TraceLog == ndJsonDeserialize(IOEnv.TRACE_FILE)
-VARIABLES l, st, eo
+VARIABLES l, st, eo, rf
 
 Keys(pairs) == {pairs[k][1] : k \in 1..Len(pairs)}
 Val(pairs, key) == pairs[CHOOSE k \in 1..Len(pairs) : pairs[k][1] = key][2]
@@ -94,17 +97,23 @@ Clauses(e) ==
                   THEN {} ELSE {"PhaseElementsAreUnionOfSpecies"})
                  \cup (IF e.p \in DOMAIN st /\ e.wsp = st[e.p] THEN {} ELSE {"WrittenSpeciesAreMembers"})
             ELSE {})
+      \cup (IF e.ev \in {"remove", "pop", "clear"}
+            THEN LET R == Fn(e.refs) IN
+                 (IF \A s \in DOMAIN rf : (rf[s] # e.p /\ rf[s] # "none") => (s \in DOMAIN R /\ R[s] = rf[s])
+                  THEN {} ELSE {"RemovalKeepsForeignReference"})
+            ELSE {})
 
 Step(e) == IF e.ev = "begin" THEN <<>> ELSE IF e.raised THEN st ELSE Fn(e.names)
 
-Init == l = 1 /\ st = <<>> /\ eo = <<>> /\ TLCSet(1, {})
+Init == l = 1 /\ st = <<>> /\ eo = <<>> /\ rf = <<>> /\ TLCSet(1, {})
 Next == /\ l <= Len(TraceLog)
         /\ LET e == TraceLog[l]  bad == Clauses(e) IN
              /\ IF bad # {} THEN TLCSet(1, TLCGet(1) \cup {<<e.tid, l, c>> : c \in bad}) ELSE TRUE
              /\ st' = Step(e)
              /\ eo' = IF e.ev = "begin" THEN Fn(e.elem_of) ELSE eo
+             /\ rf' = IF e.ev = "begin" THEN <<>> ELSE IF e.raised THEN rf ELSE Fn(e.refs)
         /\ l' = l + 1
-Spec == Init /\ [][Next]_<<l, st, eo>>
+Spec == Init /\ [][Next]_<<l, st, eo, rf>>
 Post == /\ PrintT(<<"FAILS", TLCGet(1)>>)
         /\ PrintT(<<"CONSUMED", TLCGet("stats").diameter - 1>>)
 =============================================================================
